@@ -59,6 +59,9 @@ MIN_COUNTERS = {
     'enc_multichannel': 100, 'enc_nested_curves_with_name': 30,
     'ctor_points_equal_times': 50, 'ctor_points_drop': 20,
     'ctor_points_same_point_mixed_curves': 5,
+    'reuse_histories': 500, 'reuse_envgen_side_checks': 300,
+    'reuse_interpolation_side_checks': 200, 'reuse_at_checks': 500,
+    'reuse_defs_decoded': 200,
     'conc_rounds': 300, 'conc_rounds_with_overlapping_builders': 100,
     'conc_cache_rechecks': 300, 'conc_injected_yields': 100,
 }
@@ -79,6 +82,13 @@ def plan(tier, seed):
                        'hard_timeout': secs + 120})
     for p, (f, n) in enumerate(split(n_ctor, 2)):
         shards.append({'name': f'ctor{p}', 'mode': 'nrt', 'kind': 'ctor',
+                       'first_case': f, 'n': n, 'secs': secs,
+                       'hard_timeout': secs + 120})
+    # one Env object through a history of uses and parameter changes
+    # (vf/c19_reuse.py)
+    n_reuse, rparts = (6000, 2) if tier == 'quick' else (1_500_000, 4)
+    for p, (f, n) in enumerate(split(n_reuse, rparts)):
+        shards.append({'name': f'reuse{p}', 'mode': 'nrt', 'kind': 'reuse',
                        'first_case': f, 'n': n, 'secs': secs,
                        'hard_timeout': secs + 120})
     # one multichannel Env shared by threads that use it for the first time
@@ -115,7 +125,10 @@ def _fmt_to_lists(fmt):
 
 def run_shard(spec, acc):
     kind = spec['shard']['kind']
-    if kind == 'conc':
+    if kind == 'reuse':
+        from vf.c19_reuse import run_reuse
+        run_reuse(spec, acc)
+    elif kind == 'conc':
         from vf.c19_conc import run_conc
         run_conc(spec, acc)
     elif kind == 'env':
@@ -247,8 +260,11 @@ def check_at(acc, M, G, rng, env, exp, a, witness):
                 acc.count('at_' + where.replace('-', '_') + '_checks')
             if not ok:
                 seg = _segment_shape(M, durs, shapes, t)
+                key = f'C19/at/{where}/shape-{seg}'
+                if _cubed_negative(M, levels, durs, shapes, t):
+                    key = 'C19/at/cubed-segment-with-negative-level'
                 acc.violation(
-                    f'C19/at/{where}/shape-{seg}',
+                    key,
                     dict(witness, channel=c, t=t, value=vs[c], allowed=why,
                          levels=levels, durs=durs, shapes=shapes, exact=exact))
 
@@ -260,6 +276,15 @@ def _segment_shape(M, durs, shapes, t):
         if t < bp[j + 1]:
             return shapes[j]
     return 'end'
+
+
+def _cubed_negative(M, levels, durs, shapes, t):
+    """Is t in / at the start of a cubed segment that has a negative level?"""
+    bp = M.breakpoints(durs)
+    for j in range(len(durs)):
+        if t < bp[j + 1]:
+            return shapes[j] == 7 and min(levels[j], levels[j + 1]) < 0
+    return False
 
 
 _DEFN = [0]
